@@ -75,7 +75,7 @@ def closed_iter_parts_flattening():
 CLOSED = [("voice_staff_renumbering_lemma", closed_renumbering_lemma), ("iter_parts_flattens_nested_groups", closed_iter_parts_flattening)]
 
 
-def _mk_part(pid, divs, voices, staves, octave, missing_staff=False, with_rest=True, ts=(4, 4)):
+def _mk_part(pid, divs, voices, staves, octave, missing_staff=False, with_rest=True, ts=(4, 4), pickup=False):
     """one bar of notes per voice; voices: list of voice numbers (may have gaps); staves: number of staves (voices spread round-robin)"""
     from gen import scores as G
     sc = _sc()
@@ -90,12 +90,13 @@ def _mk_part(pid, divs, voices, staves, octave, missing_staff=False, with_rest=T
 
     def extra(p, byid):
         p.add(sc.Words("espr. " + pid, staff=None if missing_staff else 1), bar // 2)
+        p.add(sc.Words("dolce", staff=None if missing_staff else 1), bar)  # the same text at the same time on the same staff in EVERY part
         p.add(sc.ConstantLoudnessDirection("p", staff=None if missing_staff else 1), 0)
         p.add(sc.ConstantLoudnessDirection("f", staff=None if missing_staff else 1), bar)
         p.add(sc.ImpulsiveLoudnessDirection("sfz", staff=None if missing_staff else 1), bar + bar // 2)
         p.add(sc.DynamicTempoDirection("rit.", staff=None if missing_staff else 1), 2 * bar, 3 * bar)
     return G.build_part(pid, divs, ts=((0, ts[0], ts[1]),), notes=notes, rests=rests, key=(1 if pid == "P0" else -2, "major"), clefs=[] if missing_staff else [(0, 1, "G", 2)],
-                        measures=[(0, bar), (bar, 2 * bar), (2 * bar, 3 * bar)], extra=extra)
+                        measures=[(0, bar), (bar, 2 * bar), (2 * bar, 3 * bar)] if not pickup else [(0, bar // 2), (bar // 2, bar // 2 + bar), (bar // 2 + bar, 3 * bar)], extra=extra)
 
 
 def _configs(tier):
@@ -108,6 +109,7 @@ def _configs(tier):
         ("voice_gap", [(2, [1, 3], 1), (2, [1, 2], 1)]),
         ("five_voices_one_staff", [(2, [1, 2, 3, 4, 5], 1), (2, [1, 2], 1)]),
         ("missing_staff", [(2, [1], 1, True), (4, [1, 2], 1, True)]),
+        ("both_parts_open_with_a_pickup", [(2, [1], 1, False, True), (3, [1, 2], 1, False, True)]),
         ("middle_part_holds_only_a_rest", [(2, [1], 1), (1, [], 1), (3, [1], 1)]),
         ("common_divisions_above_32767", [(10080, [1], 1), (768, [1], 1), (480, [1], 1)]),
     ]
@@ -129,7 +131,7 @@ def bounded(b):
         for mode in ("voice", "staff", "auto"):
             for kind in ("score", "list", "group"):
                 case = {"config": name, "reassign": mode, "container": kind}
-                parts = [_mk_part("P%d" % i, s[0], s[1], s[2], 3 + i, missing_staff=(len(s) > 3 and s[3])) for i, s in enumerate(spec)]
+                parts = [_mk_part("P%d" % i, s[0], s[1], s[2], 3 + i, missing_staff=(len(s) > 3 and s[3]), pickup=(len(s) > 4 and s[4])) for i, s in enumerate(spec)]
                 score = G.simple_score(parts)
                 ref = score.note_array(include_staff=True)
                 L = O.lcm([s[0] for s in spec])
@@ -168,7 +170,8 @@ def bounded(b):
                 gd = sorted((int(r["onset_div"]), int(r["duration_div"]), int(r["pitch"])) for r in na)
                 b.case("merge/sounding_notes_equal_the_score_level_note_array", got == want and gd == wd, case,
                        "merged %r... (divs %r...), score-level %r... (divs %r...)" % (got[:4], gd[:4], want[:4], wd[:4]))
-                divs_ok = all(int(r["onset_div"]) == round(float(r["onset_quarter"]) * L) for r in na) and int(merged.quarter_duration_map(0)) == L \
+                q0, d0 = (min(float(r["onset_quarter"]) for r in na), min(int(r["onset_div"]) for r in na)) if len(na) else (0.0, 0)  # (quarter zero lies after a pickup)
+                divs_ok = all(int(r["onset_div"]) - d0 == round((float(r["onset_quarter"]) - q0) * L) for r in na) and int(merged.quarter_duration_map(0)) == L \
                     and all(p.quarter == L for p in merged._points)
                 b.case("merge/positions_rescaled_to_the_lcm_of_the_divisions", divs_ok, case, "divisions in force %r / point quarters %r, lcm %d" % (
                     int(merged.quarter_duration_map(0)), sorted({p.quarter for p in merged._points}), L))
